@@ -303,6 +303,132 @@ def run_sequence(resname, position, steps, neutral=False):
 
 
 # ---------------------------------------------------------------------------
+# S4: flips (ASN / GLN / HIS): real Flip.__init__ / fix_flip / finalize / complete
+# ---------------------------------------------------------------------------
+
+
+def run_flip(resname, position, outcome):
+    """outcome: 'undecided' (complete() without a hydrogen bond found), 'keep' (fix_flip on an
+    original-position atom), 'flip' (fix_flip on a flipped atom).  All coordinates symbolic."""
+    import time
+
+    from pdb2pqr import debump, hydrogens, quatfit, utilities
+    from pdb2pqr.hydrogens import structures as hs
+
+    out = {"lemma_queries": {"sat": 0, "unsat": 0, "unknown": 0}, "lemma_solver_s": 0.0, "distinct": 0, "violations": [], "inconclusive": [], "samples": []}
+    t0 = time.time()
+    bm, res = _setup(resname, position, False)
+    case = {"residue": resname, "position": position, "outcome": outcome}
+    deb = debump.Debump(bm)
+    routines = hydrogens.HydrogenRoutines(deb, hydrogens.create_handler())
+    optinstance = routines.is_optimizeable(res)
+    if optinstance is None or optinstance.opttype != "Flip":
+        out["inconclusive"].append(f"{case}: residue is not flippable")
+        return out
+    names0 = [a.name for a in res.atoms]
+    with lemma.Session() as S:
+        for a in res.atoms:
+            a.x, a.y, a.z = (S.real(f"{a.name}_{k}") for k in "xyz")
+        old = {a.name: [a.x, a.y, a.z] for a in res.atoms}
+        deb.cells = _CellsLog()
+        state = {}
+
+        def norm(v):
+            w = [S.real(f"w_{k}") for k in range(3)]
+            lam = S.real("lam")
+            S.assume(_dot(w, w) == 1)
+            S.assume(lam > 0)
+            for k in range(3):
+                S.assume(core.SymReal(core.to_real_term(v[k])) == lam * w[k])
+            state["w"] = w
+            state["v"] = list(v)
+            return list(w)
+
+        minus1, zero = core.SymReal(z3.RealVal(-1)), core.SymReal(z3.RealVal(0))
+        math_q = type("M", (), {"pi": 3.141592653589793, "cos": staticmethod(lambda x: minus1), "sin": staticmethod(lambda x: zero)})  # a flip is exactly 180 degrees
+        names = optinstance.optangle.split()
+        b = old[names[1]]
+        with patched((quatfit, "math", math_q), (quatfit, "normalize", norm), (utilities, "np", shims.NP), (utilities, "dihedral", lambda *a: 0.0), (debump, "util", utilities)):
+            flip = hs.Flip(res, optinstance, deb)
+            moved_names = [n[:-4] for n in (a.name for a in res.atoms) if n.endswith("FLIP")]
+            if outcome == "keep" and moved_names:
+                flip.fix_flip(res.get_atom(moved_names[0] + "FLIP"))
+            elif outcome == "flip" and moved_names:
+                flip.fix_flip(res.get_atom(moved_names[0]))
+            flip.complete()
+        constraints = S.constraints()
+        final_names = [a.name for a in res.atoms]
+        if sorted(final_names) != sorted(names0):
+            out["violations"].append({"label": "flip-atom-set", "values": case, "note": "", "reproduced": True, "replay_detail": f"atoms after the flip machinery completed: {sorted(set(final_names) ^ set(names0))} differ from before"})
+            return out
+        w = state.get("w")
+        cur_axis = [old[names[2]][j] - b[j] for j in range(3)]
+        goals = [(f"axis[{j}] is the {names[1]}-{names[2]} bond", state["v"][j], cur_axis[j]) for j in range(3)]
+        for a in res.atoms:
+            new = [a.x, a.y, a.z]
+            o = old[a.name]
+            if outcome == "flip" and a.name in moved_names:
+                rel = [o[j] - b[j] for j in range(3)]
+                up = _dot(w, rel)
+                want = [b[j] - rel[j] + 2 * up * w[j] for j in range(3)]  # rotation by 180 degrees about the axis
+                goals += [(f"{a.name}[{j}] = 180-degree rotation about the axis", new[j], want[j]) for j in range(3)]
+            else:
+                goals += [(f"{a.name}[{j}] back at its input position", new[j], o[j]) for j in range(3)]
+    r = lemma.prove(constraints, [(lab, core.to_real_term(l) == core.to_real_term(rr)) for lab, l, rr in goals], timeout_s=60, cross_check=False)
+    out["lemma_queries"] = r["queries"]
+    out["lemma_solver_s"] = time.time() - t0
+    out["distinct"] = len(goals)
+    out["inconclusive"] += r["inconclusive"]
+    out["samples"].append({**case, "moved": moved_names})
+    if r["refuted"]:
+        lab = r["refuted"][0]["label"]
+        demo = _flip_demo(resname, position, outcome)
+        if demo:
+            out["violations"].append({"label": "flip-is-a-rigid-180-rotation-or-nothing", "values": {**case, "goal": lab}, "note": "", "reproduced": True, "replay_detail": f"{lab} fails; concrete replay: {demo}"})
+        else:
+            out["inconclusive"].append(f"{case}: '{lab}' refuted but the concrete replay keeps every bond length and every unflipped atom in place")
+    return out
+
+
+def _flip_demo(resname, position, outcome):
+    from pdb2pqr import cells as cells_mod
+    from pdb2pqr import debump, hydrogens, utilities
+    from pdb2pqr.config import CELL_SIZE
+    from pdb2pqr.hydrogens import structures as hs
+
+    bm, res = _setup(resname, position, False)
+    deb = debump.Debump(bm)
+    deb.cells = cells_mod.Cells(CELL_SIZE)
+    deb.cells.assign_cells(bm)
+    routines = hydrogens.HydrogenRoutines(deb, hydrogens.create_handler())
+    opt = routines.is_optimizeable(res)
+    before = {a.name: tuple(a.coords) for a in res.atoms}
+    bonds = _bonds(res)
+    d0 = {bd: utilities.distance(before[bd[0]], before[bd[1]]) for bd in bonds}
+    flip = hs.Flip(res, opt, deb)
+    moved = [a.name[:-4] for a in res.atoms if a.name.endswith("FLIP")]
+    if outcome == "keep" and moved:
+        flip.fix_flip(res.get_atom(moved[0] + "FLIP"))
+    elif outcome == "flip" and moved:
+        flip.fix_flip(res.get_atom(moved[0]))
+    flip.complete()
+    msgs = []
+    for bd in bonds:
+        p, q = res.get_atom(bd[0]), res.get_atom(bd[1])
+        if p is None or q is None:
+            msgs.append(f"atom of bond {bd} is gone")
+            continue
+        d1 = utilities.distance(p.coords, q.coords)
+        if abs(d1 - d0[bd]) > 1e-6:
+            msgs.append(f"bond {bd[0]}-{bd[1]} {d0[bd]:.3f} -> {d1:.3f} A")
+    if outcome != "flip":
+        for a in res.atoms:
+            if a.name in before and max(abs(x - y) for x, y in zip(a.coords, before[a.name])) > 1e-6:
+                msgs.append(f"{a.name} moved although the residue was not flipped")
+    return "; ".join(msgs[:4])
+
+
+# ---------------------------------------------------------------------------
 # S5: option gating on the real driver (flow harness)
 # ---------------------------------------------------------------------------
 
@@ -423,6 +549,10 @@ def obligations(tier, prop="C04"):
         from . import c15
 
         seqs = [("LEU", [1, 0, 1]), ("LYS", [2, 1, 2]), ("MET", [1, 0, 1]), ("PHE", [1, 0, 1])] if tier == "quick" else [(r, [k, j, k]) for r, nd in (("LEU", 2), ("LYS", 4), ("MET", 3), ("PHE", 2), ("ARG", 4), ("GLU", 3), ("GLN", 3), ("ILE", 2), ("TYR", 2), ("HIS", 2)) for k in range(1, nd) for j in range(k)]
+        for r in ("ASN", "GLN", "HIS"):
+            for pos in ("internal",) if tier == "quick" else POSITIONS:
+                for outcome in ("undecided", "keep", "flip"):
+                    obs.append(Obligation(f"flip-{r}-{pos}-{outcome}", run_flip, dict(resname=r, position=pos, outcome=outcome), kind="lemma", group="flip"))
         for r, steps in seqs:
             obs.append(Obligation(f"sequence-{r}-{'-'.join(map(str, steps))}", run_sequence, dict(resname=r, position="internal", steps=steps), kind="lemma", group="sequence"))
 
@@ -437,7 +567,9 @@ def encoded():
     from pdb2pqr import biomolecule as biomol
     from pdb2pqr import debump, main, quatfit, residue
 
-    return [debump.Debump.set_dihedral_angle, residue.Residue.get_moveable_names, biomol.Biomolecule.set_reference_distance, quatfit.qchichange, quatfit.rotmol, main.main_driver, main.non_trivial, main.transform_arguments]
+    from pdb2pqr.hydrogens import structures as hs
+
+    return [hs.Flip.__init__, hs.Flip.fix_flip, hs.Flip.finalize, hs.Flip.complete, debump.Debump.set_dihedral_angle, residue.Residue.get_moveable_names, biomol.Biomolecule.set_reference_distance, quatfit.qchichange, quatfit.rotmol, main.main_driver, main.non_trivial, main.transform_arguments]
 
 
 META = dict(
@@ -454,7 +586,7 @@ META = dict(
     ],
     outside=[
         "floating point: exact reals, the claim is 'no systematic displacement'; ulp-level drift is outside",
-        "flips (Flip.fix_flip / finalize) and the optimisation search that decides which torsions are changed",
+        "the optimisation search that decides which residues are flipped and which torsions are changed (the flip machinery itself - Flip.__init__/fix_flip/finalize/complete - IS executed symbolically)",
         "which residues debump_residue chooses to rotate and how often",
     ],
     assumptions=["bond graph = atom.bonds after update_internal_bonds (template bonds)"],
